@@ -1,4 +1,5 @@
 import MosnVerif.Gen.FilterPhase
+import MosnVerif.Gen.ProxyReply
 /-!
 Model of the stream-filter chain of one stream: `DefaultStreamFilterChainImpl.RunReceiverFilter` / `RunSenderFilter`
 (pkg/streamfilter/chain.go) with their index cursors, the phase filter, the status handlers of the proxy
@@ -8,6 +9,11 @@ before it returns (`SendHijackReply[WithBody]`, `SendDirectResponse`, `Terminate
 Regenerated from the Go source (Gen.FilterPhase): the status constants, the `switch filterStatus` of both loops
 (`recvSwitch`, `sendSwitch`), both status handlers.  Hand-written here: the loop skeleton (cursor, phase filter, order of
 filter call → status handler → switch) — checked by the correspondence run.
+
+Regenerated as well (Gen.ProxyReply, proxy3 growth): what `SendHijackReply` / `SendHijackReplyWithBody` / `SendDirectResponse`
+do to the response data and trailers the stream ALREADY holds (clear them, replace them by the answer's own, leave them) —
+so an answering filter that lets the chain go on, followed by a header-only deny of a later filter, is modelled as the
+code does it.
 
 A chain is a list of filters; a filter is a phase plus a *script*: invocation `n` of the filter (within one stream)
 returns `script[min n (len-1)]` (empty script = always Continue).  Theorems quantify over all chains and all scripts.
@@ -75,9 +81,31 @@ structure FState where
 
 def bump (f : Nat → Nat) (i : Nat) : Nat → Nat := fun j => if j = i then f j + 1 else f j
 
-/-- downStream.sendHijackReply / sendHijackReplyWithBody -/
+/-- the stream holds response data / trailers (`downstreamRespDataBuf != nil` / `downstreamRespTrailers != nil`) -/
+def heldData (s : FState) : Bool := match s.resp with | some r => r.data | none => false
+def heldTrailers (s : FState) : Bool := match s.resp with | some r => r.trailers | none => false
+
+/-- presence of a response part after a reply path with the regenerated effect `e`: `mine` = this answer has such a part -/
+def applyEff (e : Gen.ProxyReply.Eff) (mine held : Bool) : Bool :=
+  match e with
+  | .clear => false
+  | .set => mine
+  | .keep => held
+
+def hijackDataEff (body : Bool) : Gen.ProxyReply.Eff := if body then Gen.ProxyReply.hijackBodyData else Gen.ProxyReply.hijackData
+def hijackTrailersEff (body : Bool) : Gen.ProxyReply.Eff := if body then Gen.ProxyReply.hijackBodyTrailers else Gen.ProxyReply.hijackTrailers
+
+/-- downStream.sendHijackReply / sendHijackReplyWithBody: the held data / trailers are cleared, replaced by the reply's own,
+or left as they are — as the regenerated effects say -/
 def sendHijack (s : FState) (code : Nat) (body : Bool) : FState :=
-  { s with statusVar := some code, resp := some ⟨body, false⟩, direct := true }
+  { s with statusVar := some code,
+           resp := some ⟨applyEff (hijackDataEff body) body (heldData s), applyEff (hijackTrailersEff body) false (heldTrailers s)⟩,
+           direct := true }
+
+/-- streamReceiverFilterHandler.SendDirectResponse(headers, nil, nil) -/
+def sendDirect (s : FState) : FState :=
+  { s with resp := some ⟨applyEff Gen.ProxyReply.directData false (heldData s), applyEff Gen.ProxyReply.directTrailers false (heldTrailers s)⟩,
+           direct := true }
 
 /-- downStream.cleanStream as far as the filters are concerned (CAS on downstreamCleaned) -/
 def cleanStream (s : FState) : FState := { s with cleaned := true }
@@ -85,7 +113,7 @@ def cleanStream (s : FState) : FState := { s with cleaned := true }
 def applyAct (s : FState) : Act → FState
   | .none => s
   | .hijack code body => sendHijack s code body
-  | .direct => { s with resp := some ⟨false, false⟩, direct := true }
+  | .direct => sendDirect s
   | .terminate code =>
     -- streamReceiverFilterHandler.TerminateStream: refused when a response exists, the stream is cleaned, or the CAS on
     -- upstreamResponseReceived fails
